@@ -482,7 +482,7 @@ class C02:
         rng = random.Random(f"{sh['seed']}/C02/{sh['index']}")
         for src in self.corpus_programs(rng, max(30, sh["n"] // 6)):
             self.run_case({"kind": "python", "src": src, "scope": "corpus"}, rec)
-        for i in range(sh["n"]):
+        for i in harness.budgeted(range(sh["n"]), rec):
             r = rng.random()
             if r < 0.66:
                 src, tmpl, scope, kinds = self.build(rng)
